@@ -3,6 +3,7 @@ package main
 // Evaluation of contract expressions to SMT terms over a symbolic state.
 
 import (
+	"os"
 	"golang.org/x/tools/go/ssa"
 	"fmt"
 	"go/constant"
@@ -890,6 +891,9 @@ func (x *Exec) evalCall(e *Expr, env *Env) Val {
 		// called(f): the function under verification called f (directly) on this path
 		if len(e.Args) != 1 {
 			bail("called(f) expects a function name")
+		}
+		if os.Getenv("GOWP_LINT_CALLED") != "" && x.argTypeByName(calleeName(e.Args[0]), "0") == nil && x.resultTypeByName(calleeName(e.Args[0]), "0") == nil {
+			x.note("LINT called(" + calleeName(e.Args[0]) + "): no direct call of that name in the function")
 		}
 		if env.st.ghost["called:"+calleeName(e.Args[0])] == "true" {
 			return specBool("true")
